@@ -167,7 +167,7 @@ prop('C05',
      'computes it); floating-point error; np.polyfit numerics (trusted).')
 
 prop('C06',
-     [('R00.dyn', RG.rule_no_dynamic), ('R06.f', RCa.rule_frame_and_typestate), ('R01.f', RP2.rule_post_solve),
+     [('R00.dyn', RG.rule_no_dynamic), ('R06.f', RCa.rule_frame_and_typestate), ('R06.h', RCa.rule_resolve_history), ('R01.f', RP2.rule_post_solve),
       ('R01.a', RP2.rule_cost), ('R07.t', RD.rule_roundtrip), ('R07.m', RD.rule_matrixarray_transforms)],
      'Static analysis: every calculate function is abstractly interpreted for every flag valuation and every one of the '
      '8 combinations of spaces (Real/Fourier) the three stored arrays can be in, on a heap with array identity and '
